@@ -7,6 +7,6 @@ require (
 	github.com/rivo/uniseg v0.4.7
 )
 
-require github.com/creack/pty v1.1.24 // indirect
+require github.com/creack/pty v1.1.24
 
 replace github.com/ricochet1k/termemu => /repo
